@@ -145,6 +145,17 @@ class OverfitRecorder(_Base):
         return self._logged_score(X)
 
 
+class HalfOverfitRecorder(OverfitRecorder):
+    """Perfect on rows it was trained on; on unseen rows a third of the scores is inverted, so the held-out
+    ranking is degraded but still calibratable (surrogate for an over-fitted learner)."""
+
+    def _score(self, X, phase):
+        raw = self._raw(X)
+        seen = np.array([float(k) in self.mem_ for k in X[:, 0]])
+        flip = np.array([int(round(abs(float(k)) * 100)) % 3 == 0 for k in X[:, 0]])
+        return np.where(seen | ~flip, raw, -raw)
+
+
 ESTIMATORS = {
     "linear": LinearRecorder,
     "proba": ProbaRecorder,
@@ -152,6 +163,7 @@ ESTIMATORS = {
     "constant": ConstantRecorder,
     "inverted": InvertedRecorder,
     "overfit": OverfitRecorder,
+    "halfoverfit": HalfOverfitRecorder,
 }
 
 
